@@ -173,6 +173,20 @@ C15_BothHalves == \A a \in Used : LiveH(a, StrongKinds) => (TxHeld(a) /\ FoHeld(
 C15 == C15_CtxWorks /\ C15_Upgrades /\ C15_BothHalves
 
 -----------------------------------------------------------------------------
+(* C16 children live exactly as long as their parent and receive its broadcasts *)
+KidHandles(p) == {act[p].kids[i].h : i \in 1..Len(act[p].kids)}
+C16_HeldWhileParent ==   \* registered children are held exactly while the parent has not terminated (also across restarts)
+  /\ \A p \in Used : ~Terminated(p) => \A x \in KidHandles(p) : x \in DOMAIN hnd /\ hnd[x].kind = "sender" /\ hnd[x].owner = p
+  /\ \A x \in DOMAIN hnd : (hnd[x].owner \in Actor /\ hnd[x].kind = "sender") => ~Terminated(hnd[x].owner)
+C16_KeptAlive ==         \* a held child never sees its mailbox closed
+  \A p \in Used : ~Terminated(p) => \A i \in 1..Len(act[p].kids) : act[act[p].kids[i].a].cbk # "closed"
+C16_Broadcast ==         \* a copy is handled by b only if b was registered under that bucket when it was sent
+  \A b \in Used : \A j \in 1..Len(hst.hb[b]) :
+     LET m == hst.hb[b][j].m IN
+     (m[1] \in Actor /\ m[2] >= 1000) => \E r \in hst.bcast : r[1] = m[1] /\ r[2] = m[2] - 1000 /\ b \in r[4]
+C16 == C16_HeldWhileParent /\ C16_KeptAlive /\ C16_Broadcast /\ C01_AtMostOnce
+
+-----------------------------------------------------------------------------
 (* C17 OwningAddr hands back the final state exactly once *)
 JoinEntries(a) == {i \in 1..Len(hst.ann[a]) : hst.ann[a][i][1] = "join"}
 C17_Once == \A a \in Used : Cardinality({i \in JoinEntries(a) : hst.ann[a][i][4] = "some"}) <= 1
